@@ -709,7 +709,7 @@ static mut CUR_GUARD: *mut u64 = core::ptr::null_mut();
 /// which the call is abandoned: a wrapper that re-issues privileged instructions for ever (e.g. a
 /// chunking loop whose position stops advancing) becomes a reported failure instead of a hang.
 static mut TRAPS_IN_GUARD: u64 = 0;
-pub const TRAP_BUDGET: u64 = 3_000_000;
+pub const TRAP_BUDGET: u64 = 400_000;
 const SIG_BUDGET: libc::c_int = -1;
 
 /// Run `f`; a Rust panic or an unexpected fault inside it is returned as `Err(message)`.
